@@ -214,6 +214,17 @@ def main(tier, seed):
     k9 = [x for x in vlib.load_known() if x.get("id") == "F9" and x.get("status") == "known"]
     if k9 and f9_reproduces():
         chk.known("F9", "F9: " + k9[0]["what"])
+    # sync_channel(0) outside F9's class: the sender is parked inside the blocking send (its try_send has returned Full and pinged)
+    # BEFORE the loop starts dispatching - the rendezvous must then complete
+    try:
+        pout = p_c03.run_batch(vlib.HARNESS, "cchan0", ["parked"], timeout=90)
+    except Exception as e:      # noqa
+        pout = ["TIMEOUT %s" % e]
+    chk.cov["rendezvous_sender_parked_first"] = pout[0][:300] if pout else "no output"
+    if not pout or "DELIVERED" not in pout[0]:
+        chk.violation("oracle-rendezvous", "C04 violated on the real code: sync_channel(0): a blocking send() that was already parked in the channel when the loop "
+                      "started dispatching (its try_send had returned Full) is never received: the message is not delivered and the sender stays blocked "
+                      "although the loop keeps dispatching\nrendezvous case: parked\n# executed steps and observations: %s" % (pout[0][:400] if pout else ""))
     if bad:
         c, i, fs = min(bad, key=lambda x: len(x[0]))
         chk.violation("oracle", "C04 violated on the real code: %s\n%s\n# executed steps and observations: %s\n(%d failing schedules)" % (fs[0], c, i, len(bad)))
@@ -250,6 +261,11 @@ def f9_reproduces():
 
 
 def replay(path):
+    if "rendezvous case: parked" in open(path).read():
+        vlib.build_harness()
+        out = p_c03.run_batch(vlib.HARNESS, "cchan0", ["parked"], timeout=90)
+        print(out[0] if out else "no output")
+        return 0 if out and "DELIVERED" in out[0] else 1
     if "=== " in open(path).read():
         import oracles
         import seqcheck
